@@ -1,6 +1,6 @@
 """Harness helpers for the pagination kernels (C02, C03, C04, C05): run the REAL rtflite functions with the
 compiled-extension boundary (polars frames, Pillow width measurement) replaced by listed stubs."""
-from types import SimpleNamespace as NS
+from vf.fakes import Stub as NS
 
 import rtflite.pagination.core as core
 from rtflite.pagination.core import PageBreakCalculator as PBC
